@@ -32,6 +32,13 @@ def among(S, B, n, k):
     return z3.Exists([j], z3.And(j >= 0, j < n, k == Obj(S.elt(B, j))))
 
 
+def among_cf(S, B, c0, n, k):
+    """closed form of `among` (no quantifier): the j-th fresh block leaf has counter c0 + j, so its index is its counter minus c0"""
+    r = oid(k)
+    j = S.fld('Point', 'counter', r) - c0
+    return z3.And(is_Obj(k), j >= 0, j < n, z3.Not(S.fld_none('Point', 'counter', r)), S.elt(B, j) == r)
+
+
 def gb_requires(S, a):
     p = a['self'].t
     bd = S.fld('BlockPartition', 'blocks_dict', p)
@@ -58,8 +65,11 @@ def gb_ens(S0, S, a, res):
         ('new.leaves', z3.Implies(z3.Not(known), z3.ForAll([i], z3.Implies(z3.And(i >= 0, i < d - 1), is_fresh_leaf(S0, S, S.elt(B, i))))), 'property'),
         ('new.distinct', z3.Implies(z3.Not(known), z3.ForAll([i, j], z3.Implies(z3.And(i >= 0, i < j, j < d - 1), S.elt(B, i) != S.elt(B, j)))), 'property'),
         # blocks sum back to the point: the last block is the point minus the d-1 fresh unit blocks
+        ('new.counters', z3.Implies(z3.Not(known), z3.ForAll([i], z3.Implies(z3.And(i >= 0, i < d - 1), z3.And(
+            z3.Not(S.fld_none('Point', 'counter', S.elt(B, i))), S.fld('Point', 'counter', S.elt(B, i)) == S0.g('Point.counter') + i)))), 'aux'),
+        # (k is the leaf key of one of the d-1 fresh blocks  <=>  among_cf: the j-th fresh block has counter c0 + j)
         ('new.sum', z3.Implies(z3.Not(known), z3.And(last >= S0.alloc, forall_k(lambda k: coeff(S, 'Point', last, k) ==
-                                                                               coeff(S0, 'Point', x, k) - z3.If(among(S, B, d - 1, k), 1, 0)))), 'property'),
+                                                                               coeff(S0, 'Point', x, k) - z3.If(among_cf(S, B, S0.g('Point.counter'), d - 1, k), 1, 0)))), 'property'),
         ('one_block_is_identity', z3.Implies(z3.And(z3.Not(known), d == 1), forall_k(lambda k: coeff(S, 'Point', res.t, k) == coeff(S0, 'Point', x, k))), 'property'),
     ]
 
@@ -69,12 +79,16 @@ def gb_inv(L):
     B = L.var('point_partition', 0).t
     acc = L.var('accumulation', 1).t
     i, j = fresh('i', I), fresh('j', I)
+    c0 = L.H_entry.g('Point.counter')
     return [('list_local', z3.And(B >= S0.alloc, B < H.alloc, H.cls(B) == tag('list'), H.len(B) == L.i, B != H.g('Point.list_of_leaf_points'))),
             ('acc_point', z3.And(acc >= 0, acc < H.alloc, isinstance_f(H.A('cls'), acc, 'Point'),
                                  H.dd('Point', acc) >= 0, H.dd('Point', acc) < H.alloc, H.cls(H.dd('Point', acc)) == tag('dict'))),
             ('leaves', z3.ForAll([i], z3.Implies(z3.And(i >= 0, i < L.i), is_fresh_leaf(S0, H, H.elt(B, i))))),
             ('distinct', z3.ForAll([i, j], z3.Implies(z3.And(i >= 0, i < j, j < L.i), H.elt(B, i) != H.elt(B, j)))),
-            ('acc', forall_k(lambda k: coeff(H, 'Point', acc, k) == z3.If(among(H, B, L.i, k), 1, 0))),
+            ('counters', z3.And(H.g('Point.counter') == c0 + L.i,
+                                z3.ForAll([i], z3.Implies(z3.And(i >= 0, i < L.i), z3.And(z3.Not(H.fld_none('Point', 'counter', H.elt(B, i))),
+                                                                                      H.fld('Point', 'counter', H.elt(B, i)) == c0 + i))))),
+            ('acc', forall_k(lambda k: coeff(H, 'Point', acc, k) == z3.If(among_cf(H, B, c0, L.i, k), 1, 0))),
             ('registry_is_a_list', z3.And(H.g('Point.list_of_leaf_points') == L.H_entry.g('Point.list_of_leaf_points')))]
 
 
